@@ -66,12 +66,16 @@ class Block:
                 bs = []
                 if with_bounds:
                     if self.relaxed.get(slot) == 'inline':
-                        bs.append('?Sized')
+                        bs.append(self.maybe_sized())
                     for bound in self.bounds:
                         if self.is_inline(bound) and bound[0] == '{%s}' % slot:
                             bs.append(self.bound_text(bound[1], bound[2]))
                 parts.append(name + (': ' + ' + '.join(bs) if bs else ''))
         return '<%s>' % ', '.join(parts) if parts else ''
+
+    def maybe_sized(self):
+        # the relaxation may name `Sized` through a path; one spelling per block
+        return getattr(self, 'sized_spelling', '?Sized')
 
     def bound_text(self, tr, binds):
         if tr == '__outlives__':
@@ -94,7 +98,7 @@ class Block:
         preds = []
         for slot, place in self.relaxed.items():
             if place == 'where':
-                preds.append('%s: ?Sized' % self.slots[slot][1])
+                preds.append('%s: %s' % (self.slots[slot][1], self.maybe_sized()))
         for bound in self.bounds:
             if not self.is_inline(bound):
                 bounded, tr, binds, place = bound
@@ -168,6 +172,9 @@ HEADERS = {
     'arrvec': ('[Vec<{T0}>; {N0}]', ['T0', 'N0']),
     'w3': ('W<{T0}, 3>', ['T0']),
     'optvec': ('(Option<{T0}>, Vec<{T1}>)', ['T0', 'T1']),
+    'fnptr': ('fn({T0}) -> {T1}', ['T0', 'T1']),
+    'fnvec': ('fn(Vec<{T0}>) -> Vec<{T1}>', ['T0', 'T1']),
+    'fnarg': ('fn(Vec<{T0}>) -> {T1}', ['T0', 'T1']),
 }
 SPELL = {'T0': ['T', 'U', 'A', 'Elem', 'Tr', 'T0'], 'T1': ['U', 'T', 'B', 'Other', 'V', 'G'],
          'N0': ['N', 'M', 'LEN'], 'L0': ["'a", "'b", "'x"], 'L1': ["'y", "'c", "'p"], 'L2': ["'z", "'d", "'q"],
@@ -374,7 +381,7 @@ def build_world_and_probes(rng, blocks, headers, unsized=False, nprobes=6, impl_
 def gen_targs_case(rng, variant=None):
     """traits with lifetime / type / const parameters (bounds, defaults, ?Sized): blocks for
     generic and for concrete instantiations, families per instantiation"""
-    variant = variant or rng.choice(['generic', 'concrete', 'lifetime', 'const', 'bounded', 'unsized_arg', 'mixed', 'default_omitted', 'nested_unsized', 'unsized_where', 'unsized_nested_arg', 'nested_arg', 'reflexive_mix', 'bounded_composite'])
+    variant = variant or rng.choice(['generic', 'concrete', 'lifetime', 'const', 'bounded', 'unsized_arg', 'mixed', 'default_omitted', 'nested_unsized', 'unsized_where', 'unsized_nested_arg', 'nested_arg', 'reflexive_mix', 'bounded_composite', 'repeated_arg', 'nested_arg_wild'])
     tr = rng.choice(['D', 'D2'])
     trait_where = ''
     def fam(trait_args, self_fmt, used, groups, tag0, extra_bounds=(), relaxed=None):
@@ -456,6 +463,32 @@ def gen_targs_case(rng, variant=None):
         kb, nkb = ('{T1}', 'Vec<{T1}>') if on_arg else ('{T0}', '{T0}')
         general = [Block(mk_slots(rng, ['T0', 'T1']), '{T1}', '{T0}', [(kb, 'D2', {'G': g[i], 'H': rng.choice(GROUPS)}, pl())], 'b%d' % i) for i in range(rng.choice([1, 2]))]
         nb = Block(mk_slots(rng, ['T0', 'T1']), 'Vec<{T1}>', '{T0}', [(nkb, 'D2', {'G': g[2]}, 'where' if on_arg else pl()), ('{T1}', 'D', {'G': rng.choice(GROUPS)}, pl())], 'bn')
+        blocks = general + [nb]
+        targs_pool = ['X0', 'X1', 'Vec<X0>', 'Vec<X1>']
+    elif variant == 'repeated_arg':
+        # one parameter given for two trait arguments, next to an instantiation that differs at
+        # those positions:  K<U, U> for T   |   K<X0, X1> for T   (two families)
+        tg = '<P, Q>'
+        g = rng.sample(GROUPS, 3)
+        pl = lambda: rng.choice(['inline', 'where'])
+        rep = [Block(mk_slots(rng, ['T0', 'T1']), '{T1}, {T1}', '{T0}', [('{T0}', tr, {'G': g[i]}, pl())], 'b%d' % i) for i in range(2)]
+        a0, a1 = rng.choice([('X0', 'X1'), ('X1', 'X0'), ('Vec<X0>', 'X0')])
+        other = [Block(mk_slots(rng, ['T0']), '%s, %s' % (a0, a1), '{T0}', [('{T0}', tr, {'G': g[2]}, pl())], 'b2')]
+        if rng.random() < 0.5:
+            other.append(Block(mk_slots(rng, ['T0']), '%s, %s' % (a0, a1), '{T0}', [('{T0}', tr, {'G': g[0]}, pl())], 'b3'))
+        blocks = rep + other
+        if rng.random() < 0.5:
+            blocks = other + rep
+        targs_pool = ['X0, X0', 'X1, X1', '%s, %s' % (a0, a1), 'X0, X2']
+    elif variant == 'nested_arg_wild':
+        # a member nested through a trait argument that leaves the key of that position open:
+        #   K<U> for T (T: D<G=..>, U: D2<G=..>)  >  K<Vec<U>> for T (T: D<G=..>, Vec<U>: D2)
+        # its helper impl names the open key by a projection over ITS OWN header: <Vec<U> as D2>::G
+        tg = '<P>'
+        g = rng.sample(GROUPS, 3)
+        pl = lambda: rng.choice(['inline', 'where'])
+        general = [Block(mk_slots(rng, ['T0', 'T1']), '{T1}', '{T0}', [('{T0}', 'D', {'G': g[i]}, pl()), ('{T1}', 'D2', {'G': rng.choice(GROUPS)}, pl())], 'b%d' % i) for i in range(2)]
+        nb = Block(mk_slots(rng, ['T0', 'T1']), 'Vec<{T1}>', '{T0}', [('{T0}', 'D', {'G': g[2]}, pl()), ('Vec<{T1}>', 'D2', {}, 'where')], 'bn')
         blocks = general + [nb]
         targs_pool = ['X0', 'X1', 'Vec<X0>', 'Vec<X1>']
     elif variant == 'reflexive_mix':
@@ -857,6 +890,39 @@ def gen_case(rng, kind, idx=None):
                 world[(ty, trt)] = {'G': rng.choice([b.bounds[0][2]['G'] for b in general])}
             elif not ty.startswith(wname + '<') and rng.random() < 0.5:
                 world[(ty, trt)] = {'G': inner[2]['G']}
+        return Case(kind, 'K', '', blocks, probes, world)
+    elif kind == 'fnnest':
+        # function-pointer headers: fn(T) -> U keyed on the RETURN type, with a member under
+        # fn(Vec<T>) -> Vec<U> (or fn(Vec<T>) -> U) that re-expresses the key, or bounds only the
+        # parameter inside the return type (unnameable over the general header: its own family,
+        # overlapping the general one wherever Vec<U>: D holds)
+        spec_h = pk.choice(['fnvec', 'fnarg'])
+        variant = pk.choice(['inner_only', 'keyed', 'key_then_inner'])
+        tr = 'D'
+        g = rng.sample(GROUPS, 3)
+        pl = lambda: rng.choice(['inline', 'where'])
+        general = [Block(mk_slots(rng, ['T0', 'T1']), None, HEADERS['fnptr'][0], [('{T1}', tr, {'G': g[i]}, pl())], 'b%d' % i) for i in range(pk.choice([2, 1]))]
+        ret = 'Vec<{T1}>' if spec_h == 'fnvec' else '{T1}'
+        inner = ('{T1}', tr, {'G': g[2]}, pl())
+        keyb = (ret, tr, {'G': g[2]}, 'where')
+        if spec_h == 'fnarg':
+            variant = 'keyed'           # the return type is the parameter itself
+        nb_bounds = {'inner_only': [inner], 'keyed': [keyb], 'key_then_inner': [keyb, ('{T1}', tr, {'G': rng.choice(GROUPS)}, pl())]}[variant]
+        nb = Block(mk_slots(rng, ['T0', 'T1']), None, HEADERS[spec_h][0], nb_bounds, 'bn')
+        blocks = general + [nb]
+        headers = [HEADERS['fnptr']] * len(general) + [HEADERS[spec_h]]
+        if rng.random() < 0.5:
+            order = list(range(len(blocks))); rng.shuffle(order)
+            blocks = [blocks[i] for i in order]; headers = [headers[i] for i in order]
+        for i, b in enumerate(blocks):
+            b.tag = 'b%d' % i
+        probes, world = build_world_and_probes(rng, blocks, headers, nprobes=8, impl_rate=0.9, prefer_rate=0.7)
+        for a in ATOMS[:3]:
+            # witnesses: the wrapped return type carries a general block's group, its element the member's
+            if rng.random() < 0.8:
+                world[('Vec<%s>' % a, tr)] = {'G': rng.choice([b.bounds[0][2]['G'] for b in general])}
+            if rng.random() < 0.6:
+                world[(a, tr)] = {'G': g[2]}
         return Case(kind, 'K', '', blocks, probes, world)
     elif kind == 'nested_relaxed_inner':
         # a nested member relaxes a parameter of its own that the general header cannot name
